@@ -13,8 +13,9 @@ endpoint, fake transports, a deterministic retry policy and task.Clock:
   pok pfail           that Deferred fires / fails
   fail                the outstanding endpoint attempt fails
   drop                the open connection is lost (connectionLost is delivered; this is also
-                      how a connection on which loseConnection() was called finishes closing,
-                      i.e. closing is asynchronous as on a real reactor)
+                      how a connection on which loseConnection() was called finishes closing:
+                      closing is asynchronous as on a real reactor, except in the *-syncclose
+                      configs, where loseConnection() delivers connectionLost at once)
   tick                the clock is advanced up to the retry due time the oracle expects
                       (first to just before it, then exactly to it)
   part                the clock is advanced half way to that time
@@ -91,7 +92,8 @@ class _AppProtocol(Protocol):
 
 
 class _Conn:
-    def __init__(self, n):
+    def __init__(self, world, n):
+        self.world = world
         self.n = n
         self.open = True
         self.established = False
@@ -107,8 +109,11 @@ class _Transport:
         self._conn = conn
 
     def loseConnection(self):
-        self._conn.lose_requested = True
+        conn = self._conn
+        conn.lose_requested = True
         self.disconnecting = True
+        if conn.world.sync_close and conn.open:
+            conn.world.lose(conn)
 
     abortConnection = loseConnection
 
@@ -163,8 +168,9 @@ class Violation(Exception):
 class World:
     """the real ClientService in a fake environment, plus the observer/oracle"""
 
-    def __init__(self, hook):
-        self.hook = hook
+    def __init__(self, config):
+        hook = self.hook = "hook" in config
+        self.sync_close = "syncclose" in config
         self.clock = task.Clock()
         self.violations = []
         self.attempts = []
@@ -370,7 +376,7 @@ class World:
             d.addBoth(fired)
         elif ev in ("ok", "raise", "defer"):
             a = self.pending_attempt()
-            conn = _Conn(len(self.conns))
+            conn = _Conn(self, len(self.conns))
             self.conns.append(conn)
             built = []
             orig = self.app_factory.buildProtocol
@@ -407,11 +413,7 @@ class World:
             self.note_attempt_failure(exc)
             a.d.errback(Failure(exc))
         elif ev == "drop":
-            c = self.open_conn()
-            c.open = False
-            if c.established and self.running and not c.lose_requested:
-                self.note_failure()
-            c.proto.connectionLost(Failure(ConnectionDone()))
+            self.lose(self.open_conn())
         elif ev == "pok":
             self.note_established(self.hook_conn)
             self.hookd.callback(None)
@@ -427,6 +429,13 @@ class World:
                 self.bad("LOOP", "retry started half way through the retry delay")
         elif ev == "tick":
             self._tick()
+
+    def lose(self, c):
+        """deliver connectionLost for an open connection"""
+        c.open = False
+        if c.established and self.running and not c.lose_requested:
+            self.note_failure()
+        c.proto.connectionLost(Failure(ConnectionDone()))
 
     def _tick(self):
         clock = self.clock
@@ -564,10 +573,13 @@ class _LogWatch:
         globalLogPublisher.removeObserver(self)
 
 
-def run_history(hook, events):
+CONFIGS = ("plain", "hook", "plain-syncclose", "hook-syncclose")
+
+
+def run_history(config, events):
     """replay one history; returns (violation or None, index of failing event, world)"""
     with _LogWatch() as lw:
-        w = World(hook)
+        w = World(config)
         res = None
         at = None
         for i, ev in enumerate(events):
@@ -584,14 +596,52 @@ def describe(events, at, res):
     return "after %s: %s" % (" ".join(events[: at + 1]), res)
 
 
-# region helpers for known-findings predicates (see pyvc.findings: parts("C58"))
-def stops_before_first_start(case):
-    ev = case[1]
-    return "stop" in ev and ("start" not in ev or ev.index("stop") < ev.index("start"))
+# ---- region helpers for known-findings predicates (pyvc.findings: parts("C58").<name>(case, what)) ----
+def failing_history(what):
+    """the events up to and including the one at which the observer objected"""
+    if not what.startswith("after "):
+        return ()
+    return tuple(what[len("after "):].split(":", 1)[0].split())
 
 
-def uses_hook_rejection_or_delay(case):
-    return any(e in ("raise", "defer", "pok", "pfail") for e in case[1])
+def finding_stop_before_start_strands_waiters(case, what):
+    """whenConnected() on a never-started service, then stopService(): the Deferred stays pending"""
+    ev = failing_history(what)
+    return ("still pending although the service is stopped" in what and "start" not in ev
+            and ev[-1:] == ("stop",) and any(e in _LIMIT for e in ev))
+
+
+def finding_unaccepted_connection_left_open(case, what):
+    """a connection that prepareConnection rejected, or has not accepted yet, is open and the service
+    neither closes nor tracks it: the failing event is the retry tick (second connection), the loss of
+    that connection (NoTransition) or stopService (connection left open, stop Deferred fired)"""
+    ev = failing_history(what)
+    if not ev:
+        return False
+    body = ev[:-1]
+    last = max([i for i, e in enumerate(body) if e in ("raise", "defer")], default=None)
+    if last is None:
+        return False
+    if body[last] == "defer" and "pok" in body[last:]:
+        return False
+    if "drop" in body[last:]:
+        return False
+    return (ev[-1] in ("tick", "drop", "stop")
+            and any(t in what for t in ("no transition for _clientDisconnected",
+                                        "while a connection is still open",
+                                        "open without closing it")))
+
+
+_FUNCTIONS = [
+    "ClientService.startService",
+    "ClientService.stopService",
+    "ClientService.whenConnected",
+    "makeMachine",
+    "_Core.unawait",
+    "_Core.finishStopping",
+    "_ReconnectingProtocolProxy.connectionLost",
+    "_DisconnectFactory.buildProtocol",
+]
 
 
 class ShortHistories(Bounded):
@@ -599,41 +649,36 @@ class ShortHistories(Bounded):
     title = ("every short event history of the real ClientService (fake endpoint, task.Clock) against the "
              "one-connection / retry-delay / waiter-deadline / stop-deadline / no-rejected-event observer")
     scope = ("all histories over {start, stop, whenConnected(None|1|2), attempt ok/fail, connection drop, "
-             "clock tick to the due time, half-way tick} without a prepareConnection hook up to length 7 "
-             "(quick) / 9 (thorough), and with a hook (adds: hook raises, hook returns a Deferred that later "
-             "fires/fails) up to length 6 / 8; histories are pruned when the (observer state, real service "
-             "state) pair was already reached by a history no longer than this one, and end at the first "
-             "violation; retry policy n -> 2**n; asynchronous close; endpoint Deferred with default canceller")
-    functions = [
-        "ClientService.startService",
-        "ClientService.stopService",
-        "ClientService.whenConnected",
-        "makeMachine",
-        "_Core.unawait",
-        "_Core.finishStopping",
-        "_ReconnectingProtocolProxy.connectionLost",
-        "_DisconnectFactory.buildProtocol",
-    ]
+             "clock tick to the due time, half-way tick}; configs: no prepareConnection hook, up to length "
+             "11 (quick) / 14 (thorough); with a hook (adds: hook raises, hook returns a Deferred that later "
+             "fires/fails) up to 10 / 13; both again with transports that deliver connectionLost "
+             "synchronously inside loseConnection up to 9 / 12.  Breadth-first with state hashing: a history "
+             "is extended only if its (observer state, real service state incl. automat state) was not "
+             "reached by a history that is not longer; histories end at the first violation.  Retry policy "
+             "n -> 2**n; endpoint Deferred with the default canceller")
+    functions = _FUNCTIONS
 
-    DEPTH = {"quick": {False: 7, True: 6}, "thorough": {False: 9, True: 8}}
+    DEPTH = {
+        "quick": {"plain": 11, "hook": 10, "plain-syncclose": 9, "hook-syncclose": 9},
+        "thorough": {"plain": 14, "hook": 13, "plain-syncclose": 12, "hook-syncclose": 12},
+    }
 
     def __init__(self):
         self._memo = {}
 
     def cases(self, tier, rng):
-        for hook in (False, True):
-            depth = self.DEPTH[tier][hook]
-            seen = set()
+        for config in CONFIGS:
+            depth = self.DEPTH[tier][config]
+            seen = {World(config).state()}
             frontier = [()]
-            seen.add(World(hook).state())
-            for d in range(depth):
+            for _ in range(depth):
                 nxt = []
                 for prefix in frontier:
-                    _, _, w = run_history(hook, prefix)
+                    _, _, w = run_history(config, prefix)
                     for ev in w.enabled():
                         seq = prefix + (ev,)
-                        res, at, w2 = run_history(hook, seq)
-                        case = (hook, seq)
+                        res, at, w2 = run_history(config, seq)
+                        case = (config, seq)
                         self._memo = {case: (res, at)}
                         yield case
                         if res is None:
@@ -644,11 +689,11 @@ class ShortHistories(Bounded):
                 frontier = nxt
 
     def check(self, case):
-        hook, seq = case
+        config, seq = case
         if case in self._memo:
             res, at = self._memo.pop(case)
         else:
-            res, at, _ = run_history(hook, seq)
+            res, at, _ = run_history(config, seq)
         if res is None:
             return None
         return describe(seq, at, res)
@@ -657,40 +702,46 @@ class ShortHistories(Bounded):
 class RandomHistories(Bounded):
     prop = "C58"
     title = "seeded random long event histories of the real ClientService against the same observer"
-    scope = ("random histories of 60 enabled events (quick: 150 per profile, thorough: 3000 per profile); "
-             "profiles: 'core' = no hook, first event is start; 'hookok' = hook that always accepts "
-             "synchronously, first event start; 'any' = no hook, unrestricted; 'hook' = hook with "
-             "raise/defer, unrestricted.  Same environment as ShortHistories")
-    functions = ShortHistories.functions
+    scope = ("random histories of 80 enabled events (quick: 100 per profile, thorough: 2500 per profile), "
+             "waiter events at a third of the weight of the others; profiles: 'core' = no hook, first "
+             "event is start; 'hookok' = hook present but only accepting synchronously, first event start; "
+             "'core-syncclose' = core with synchronous connectionLost; 'any' = no hook, unrestricted; "
+             "'hook' = hook with raise/defer, unrestricted.  Same environment as ShortHistories; a history "
+             "ends at the first violation")
+    functions = _FUNCTIONS
 
-    N = {"quick": 150, "thorough": 3000}
-    LENGTH = 60
-    PROFILES = ("core", "hookok", "any", "hook")
+    N = {"quick": 100, "thorough": 2500}
+    LENGTH = 80
+    PROFILES = {
+        "core": "plain",
+        "hookok": "hook",
+        "core-syncclose": "plain-syncclose",
+        "any": "plain",
+        "hook": "hook",
+    }
 
     def cases(self, tier, rng):
         for profile in self.PROFILES:
             for _ in range(self.N[tier]):
                 yield (profile, rng.randrange(1 << 30), self.LENGTH)
 
-    @staticmethod
-    def history(case):
+    @classmethod
+    def history(cls, case):
         """the event list the case denotes (for reproduction), with the verdict"""
         import random
 
         profile, seed, length = case
         r = random.Random(seed)
-        hook = profile in ("hookok", "hook")
         trace = []
         with _LogWatch() as lw:
-            w = World(hook)
+            w = World(cls.PROFILES[profile])
             res = None
             for i in range(length):
                 en = w.enabled()
                 if profile == "hookok":
                     en = [e for e in en if e not in ("raise", "defer", "pok", "pfail")]
-                if profile in ("core", "hookok") and i == 0:
+                if profile in ("core", "hookok", "core-syncclose") and i == 0:
                     en = ["start"]
-                # waiters are cheap to add and never disable anything: keep them from dominating
                 weights = [1 if e in _LIMIT else 3 for e in en]
                 ev = r.choices(en, weights)[0]
                 trace.append(ev)
